@@ -242,9 +242,12 @@ def finishAdd (s2 : St) (x : Sample) (rts : Nat) : St × AddRes :=
     let insts4 := match touchInst s2.insts h x.kind rts with
       | some l => l
       | none => s2.insts
-    let owns4 := match findOwn h s2.owns with
-      | some _ => mapOwn h (fun o => if o.lastRecv < rts then { o with lastRecv := rts } else o) s2.owns
-      | none => s2.owns ++ [{ inst := h, owner := x.writer, lastRecv := rts }]
+    let owns4 :=
+      if x.kind.isAliveKind then
+        match findOwn h s2.owns with
+        | some _ => mapOwn h (fun o => if o.lastRecv < rts then { o with lastRecv := rts } else o) s2.owns
+        | none => s2.owns ++ [{ inst := h, owner := x.writer, lastRecv := rts }]
+      else s2.owns
     ({ s2 with samples := storeSample s2.qos s2.samples x, insts := insts4, owns := owns4 }, .added)
 
 /-- the EXCLUSIVE ownership filter (data_reader_entity.rs:372-418): `none` = sample dropped -/
@@ -471,11 +474,18 @@ def addPub (s : St) (w : Nat) (strength : Int) : St :=
     | p :: ps => if p.1 = w then (w, strength) :: ps else p :: upd ps
   { s with pubs := upd s.pubs }
 
+/-- ownership entries not owned by writer `w` -/
+def dropOwner (w : Nat) : List Own → List Own
+  | [] => []
+  | o :: os => if o.owner = w then dropOwner w os else o :: dropOwner w os
+
 def removePub (s : St) (w : Nat) : St :=
   let rec er : List (Nat × Int) → List (Nat × Int)
     | [] => []
     | p :: ps => if p.1 = w then ps else p :: er ps
-  { s with pubs := er s.pubs }
+  match findPub w s.pubs with
+  | some _ => { s with pubs := er s.pubs, owns := dropOwner w s.owns }
+  | none => s
 
 def getRejStatus (s : St) : St × RejStatus :=
   ({ s with rej := { s.rej with change := 0 } }, s.rej)
